@@ -12,6 +12,120 @@ import re
 from facts import cdef, cres, op_local
 
 
+MAXDIGITS = {'u8': 3, 'u16': 5, 'u32': 10, 'u64': 20, 'u128': 39, 'usize': 20}
+
+
+def fast_path_cap(rep, F, fn, rule):
+    """(c) a machine-word fast path (`if let Some(n) = uint.to_uNN()`) accepts every value of that type; the count it can
+    return has a structural upper bound - the length of the table it counts over, or the literal its counter is capped at.
+    A bound below the number of decimal digits of the type's largest value miscounts the longest values the path accepts.
+    Decided only when nothing but the zero test and the to_uNN test guards the path; anything else is left alone."""
+    dom = fn.dominators()
+    live = fn.live_blocks()
+    defs = {}
+    for bid, st in fn.stmts():
+        if bid in live and not st['lhs']['p']:
+            defs.setdefault(st['lhs']['l'], []).append((bid, st))
+    calls = {}
+    for bid, t in fn.calls():
+        if bid in live and t.get('dest') and not t['dest']['p']:
+            calls.setdefault(t['dest']['l'], []).append((bid, t))
+    # the guard: switch on discr(x) with x = to_uNN(..)
+    guards = []
+    for bid in sorted(live):
+        t = fn.blocks[bid]['term']
+        if t['t'] != 'switch' or op_local(t['on']) is None:
+            continue
+        for _, st in defs.get(op_local(t['on']), []):
+            if st['rv']['r'] == 'discr' and not st['rv']['pl']['p']:
+                for _, c in calls.get(st['rv']['pl']['l'], []):
+                    m = re.search(r'ToPrimitive(?:>| for [^>]*>)?::to_(u8|u16|u32|u64|u128|usize)$', (cres(c) or '')) or re.search(r'ToPrimitive>?::to_(u8|u16|u32|u64|u128|usize)$', cdef(c) or '')
+                    if m:
+                        some = [tg for v, tg in t['targets'] if str(v) == '1']
+                        if some:
+                            guards.append((bid, some[0], m.group(1)))
+    n = 0
+    for gb, some_bb, ty in guards:
+        for bid, st in fn.stmts():
+            if bid not in live or st['lhs']['l'] != 0 or st['lhs']['p'] or some_bb not in dom.get(bid, ()):
+                continue
+            # other tests between the guard and this return: only the path's own loop tests are tolerated
+            cap = why = None
+            src = st['rv']
+            loc = None
+            for _ in range(4):
+                if src['r'] in ('use', 'cast') and op_local(src['op']) is not None:
+                    loc = op_local(src['op'])
+                    ds = defs.get(loc, [])
+                    if len(ds) == 1 and ds[0][1]['rv']['r'] in ('use', 'cast') and loc not in calls:
+                        src = ds[0][1]['rv']
+                        continue
+                break
+            if loc is None:
+                continue
+            key = '%s:fast-path-%s-cap' % (fn.key, ty)
+            if loc in calls and len(calls[loc]) == 1 and re.search(r'Iterator::count$', cres(calls[loc][0][1]) or cdef(calls[loc][0][1]) or ''):
+                # count() over adaptors over the iterator of a fixed-size array
+                cur = calls[loc][0][1]
+                for _ in range(6):
+                    a = op_local(cur['args'][0]) if cur.get('args') else None
+                    if a is None:
+                        break
+                    if a in calls and len(calls[a]) == 1:
+                        cur = calls[a][0][1]
+                        continue
+                    ds = defs.get(a, [])
+                    if len(ds) == 1 and ds[0][1]['rv']['r'] in ('use', 'cast', 'ref'):
+                        rv = ds[0][1]['rv']
+                        inner = op_local(rv['op']) if rv['r'] != 'ref' else rv['pl']['l']
+                        m = re.search(r'\[[^;\]]+; (\d+)\]', fn.locals[inner] if inner is not None else '')
+                        if m and re.search(r'::iter$', cres(cur) or cdef(cur) or ''):
+                            cap, why = int(m.group(1)), 'it counts entries of a table of %s elements' % m.group(1)
+                        break
+                    break
+                # every switch dominating the return besides the zero test and the guard disqualifies
+                others = [b for b in dom[bid] if fn.blocks[b]['term']['t'] == 'switch' and b != gb and some_bb in dom[b]]
+                if others:
+                    cap = None
+            else:
+                # a counter: const init, +1 steps, every step dominated by the true edge of `counter < K`
+                ds = defs.get(loc, [])
+                inits = [d for d in ds if d[1]['rv']['r'] == 'use' and d[1]['rv']['op'].get('k') == 'const' and 'int' in d[1]['rv']['op']]
+                steps = [d for d in ds if d not in inits]
+                lim = None
+                for b2, st2 in fn.stmts():
+                    rv = st2['rv']
+                    if b2 in live and rv['r'] == 'bin' and rv['bop'] == 'Lt' and rv['b'].get('k') == 'const' and 'int' in rv['b'] and op_local(rv['a']) is not None:
+                        a = op_local(rv['a'])
+                        da = defs.get(a, [])
+                        if a == loc or (len(da) == 1 and da[0][1]['rv']['r'] == 'use' and op_local(da[0][1]['rv']['op']) == loc):
+                            tsw = fn.blocks[b2]['term']
+                            if tsw['t'] == 'switch' and op_local(tsw['on']) == st2['lhs']['l']:
+                                true_bb = tsw['otherwise'] if [str(v) for v, _ in tsw['targets']] == ['0'] else next((tg for v, tg in tsw['targets'] if str(v) == '1'), None)
+                                lim = (int(rv['b']['int']), true_bb, b2)
+                if lim and inits and steps and all(int(d[1]['rv']['op']['int']) <= lim[0] for d in inits) and all(lim[1] in dom.get(d[0], ()) for d in steps):
+                    ok_steps = True
+                    for d in steps:
+                        rv = d[1]['rv']
+                        srcl = rv['op']['pl']['l'] if rv['r'] == 'use' and rv['op'].get('k') in ('copy', 'move') else None
+                        sd = defs.get(srcl, []) if srcl is not None else []
+                        if not (len(sd) == 1 and sd[0][1]['rv']['r'] == 'bin' and sd[0][1]['rv']['bop'] in ('AddWithOverflow', 'Add') and op_local(sd[0][1]['rv']['a']) == loc
+                                and sd[0][1]['rv']['b'].get('k') == 'const' and sd[0][1]['rv']['b'].get('int') == '1'):
+                            ok_steps = False
+                    # a further test between the guard and the loop may narrow the accepted values: not decided then
+                    others = [b for b in dom[bid] if fn.blocks[b]['term']['t'] == 'switch' and b != gb and some_bb in dom[b] and b != lim[2] and lim[2] not in dom[b]]
+                    if ok_steps and not others:
+                        cap, why = lim[0], 'its counter stops at the literal %d' % lim[0]
+            if cap is None:
+                continue
+            n += 1
+            if cap < MAXDIGITS[ty]:
+                rep.violation(rule, key, 'the %s fast path can return at most %d (%s) but accepts every %s, whose largest values have %d decimal digits' % (ty, cap, why, ty, MAXDIGITS[ty]), fn.where(st.get('line')))
+            else:
+                rep.ok(rule, key, 'the %s fast path can count up to %d digits (%s); the type needs %d' % (ty, cap, why, MAXDIGITS[ty]), fn.where(st.get('line')))
+    return n
+
+
 def check(rep, F, rule='COUNT-DIGITS'):
     fn = F.fns.get('arithmetic::count_decimal_digits_uint')
     if fn is None:
@@ -98,12 +212,18 @@ def check(rep, F, rule='COUNT-DIGITS'):
                 if old is None or new != old:
                     state_in[nx] = new
                     work.append(nx)
-        if not tests:
+        adaptors = [cres(t) or '' for _, t in fn.calls() if re.search(r'Iterator::(take_while|skip_while|position|find|count|successors)$|iter::successors', cres(t) or cdef(t) or '')]
+        if not tests and adaptors:
+            # the correction written with iterator adaptors: the test lives in a closure this typestate does not follow
+            rep.undecided_anchor(rule, key, 'the correction is written with iterator adaptors (%s); the explicit-loop shape this rule decides is absent' % adaptors[0].split('::')[-1], fn.where())
+        elif not tests:
             rep.violation(rule, key, 'no test `uint >= num` found: the count returned is never checked against 10^digits', fn.where())
         elif bad_ret:
             rep.violation(rule, key, '`digits` is returned on a path where `num`/`digits` were updated after the last `uint >= num` test: uint < 10^digits is not established (a single correction instead of a loop)', fn.where(bad_ret[0]))
         else:
             rep.ok(rule, key, 'every return of `digits` follows the false edge of `uint >= num` with no later update of num or digits', fn.where())
+    # ---- (c) machine-word fast paths
+    n += fast_path_cap(rep, F, fn, rule)
     # ---- (a) lock-step through the loop
     from rules import scale
     n += 1
